@@ -362,6 +362,8 @@ impl VarNameMap {
                 let prev = std::mem::replace(&mut self.names[var as usize], name);
                 entry.insert(var);
                 if !prev.is_empty() {
+                    // The variable is no longer known under its previous name
+                    self.index.remove(&prev);
                     // SAFETY:
                     // 1. By the type invariant and since `prev` is not empty, it `prev` has been
                     //    created from a `Box<str>`
